@@ -190,13 +190,19 @@ Proof.
   destruct (best_child s n) as [c|] eqn:E; [|exact Hn]. apply IHfuel. eapply best_child_in; eauto.
 Qed.
 Theorem spec_head_sound s start e :
-  spec_find_head s start = Ok e -> In e (ss_tree s) /\ s_viable s e = true.
+  spec_find_head s start = Ok e -> In e (ss_tree s) /\ is_desc (ss_tree s) start e = true /\ s_viable s e = true.
 Proof.
   unfold spec_find_head. destruct (find_node (ss_tree s) start) as [n|] eqn:E; [|discriminate].
-  remember (tree_fuel (ss_tree s)) as fuel.
-  destruct (s_viable s (head_walk fuel s n)) eqn:V; [|discriminate].
-  intros H. assert (He : e = head_walk fuel s n) by congruence. subst e. split; [|exact V].
-  apply head_walk_in. apply find_node_some in E. tauto.
+  set (s' := mkS (subtree (ss_tree s) start) (ss_just s) (ss_fin s) (ss_pin s) (ss_latest s) (ss_applied s) (ss_bal s) (ss_spe s) (ss_partial s)).
+  remember (tree_fuel (ss_tree s')) as fuel.
+  destruct (s_viable s (head_walk fuel s' n)) eqn:V; [|discriminate].
+  intros H. assert (He : e = head_walk fuel s' n) by congruence. subst e.
+  apply find_node_some in E. destruct E as [Hin Hr].
+  assert (Hn : In n (ss_tree s')).
+  { cbn [ss_tree s']. unfold subtree. apply filter_In. split; [exact Hin|]. unfold is_desc, tree_fuel. cbn [reaches].
+    rewrite Hr, ref_eqb_refl. reflexivity. }
+  pose proof (head_walk_in s' fuel n Hn) as Hw. cbn [ss_tree s'] in Hw. unfold subtree in Hw. apply filter_In in Hw.
+  destruct Hw as [A B]. auto.
 Qed.
 Corollary spec_head_in_finalized_subtree s a start e :
   spec_find_head (prune_to s a) start = Ok e -> is_desc (ss_tree s) a e = true.
